@@ -38,24 +38,16 @@ structure Record where
   fragment : Bytes
 deriving Repr, DecidableEq
 
+/-- `TlsRecord`: content type, version, 2-byte-prefixed fragment, behind the 5-byte size check -/
+def recordCodec : Codec Record :=
+  minSize Gen.TlsRecord_HEADER_SIZE
+    (mapE (seq (intEnum Gen.TlsContentType.memberCodes 1) (seq versionCodec (bytesPrefixed .network 2)))
+      (fun x => .ok ⟨x.1, x.2.1, x.2.2⟩) (fun r => (r.contentType, r.version, r.fragment)))
+
 /-- `TlsRecord._parse` -/
-def parseRecord (bs : Bytes) : Except PErr (Record × Nat) :=
-  if bs.length < Gen.TlsRecord_HEADER_SIZE then
-    .error (.notEnough ((Gen.TlsRecord_HEADER_SIZE - bs.length : Nat) : Int))
-  else do
-    let (ct, n1) ← parseIntEnum Gen.TlsContentType.memberCodes 1 bs
-    let (v, n2) ← parseVersion (bs.drop n1)
-    let (frag, n3) ← parseBytes .network 2 (bs.drop (n1 + n2))
-    pure (⟨ct, v, frag⟩, n1 + n2 + n3)
-
+def parseRecord (bs : Bytes) : Except PErr (Record × Nat) := recordCodec.parse bs
 /-- `TlsRecord.compose` -/
-def composeRecord (r : Record) : Except PErr Bytes := do
-  let a ← composeNum .network 1 (r.contentType : Int)
-  let b ← composeVersion r.version
-  let c ← composeBytes .network 2 r.fragment
-  pure (a ++ b ++ c)
-
-def recordCodec : Codec Record := ⟨parseRecord, composeRecord⟩
+def composeRecord (r : Record) : Except PErr Bytes := recordCodec.compose r
 
 def Record.wf (r : Record) : Prop :=
   r.contentType ∈ Gen.TlsContentType.memberCodes ∧ r.version < Gen.TlsVersion.codes.length ∧
@@ -68,34 +60,27 @@ structure Alert where
   description : Nat
 deriving Repr, DecidableEq
 
-/-- `TlsAlertMessage._parse`; the attrs validators convert level, then description -/
-def parseAlert (bs : Bytes) : Except PErr (Alert × Nat) :=
-  if bs.length < Gen.TlsAlertMessage_SIZE then
-    .error (.notEnough ((Gen.TlsAlertMessage_SIZE - bs.length : Nat) : Int))
-  else do
-    let (l, n1) ← parseNum .network 1 bs
-    let (d, n2) ← parseNum .network 1 (bs.drop n1)
-    if !(Gen.TlsAlertLevel.memberCodes.contains l) then .error .invalidValue
-    else if !(Gen.TlsAlertDescription.memberCodes.contains d) then .error .invalidValue
-    else pure (⟨l, d⟩, n1 + n2)
+/-- `TlsAlertMessage`: two bytes behind the size check; the attrs validators then convert level
+(first) and description, `ValueError` → `InvalidValue` -/
+def alertCodec : Codec Alert :=
+  minSize Gen.TlsAlertMessage_SIZE
+    (mapE (seq (num .network 1) (num .network 1))
+      (fun x =>
+        if !(Gen.TlsAlertLevel.memberCodes.contains x.1) then .error .invalidValue
+        else if !(Gen.TlsAlertDescription.memberCodes.contains x.2) then .error .invalidValue
+        else .ok ⟨x.1, x.2⟩)
+      (fun a => (a.level, a.description)))
 
-def composeAlert (a : Alert) : Except PErr Bytes := do
-  let x ← composeNum .network 1 (a.level : Int)
-  let y ← composeNum .network 1 (a.description : Int)
-  pure (x ++ y)
-
-def alertCodec : Codec Alert := ⟨parseAlert, composeAlert⟩
+def parseAlert (bs : Bytes) : Except PErr (Alert × Nat) := alertCodec.parse bs
+def composeAlert (a : Alert) : Except PErr Bytes := alertCodec.compose a
 
 def Alert.wf (a : Alert) : Prop :=
   a.level ∈ Gen.TlsAlertLevel.memberCodes ∧ a.description ∈ Gen.TlsAlertDescription.memberCodes
 
 /-- `TlsChangeCipherSpecMessage` -/
-def parseCcs (bs : Bytes) : Except PErr (Nat × Nat) :=
-  parseIntEnum Gen.TlsChangeCipherSpecType.memberCodes 1 bs
-
-def composeCcs (v : Nat) : Except PErr Bytes := composeNum .network 1 (v : Int)
-
-def ccsCodec : Codec Nat := ⟨parseCcs, composeCcs⟩
+def ccsCodec : Codec Nat := intEnum Gen.TlsChangeCipherSpecType.memberCodes 1
+def parseCcs (bs : Bytes) : Except PErr (Nat × Nat) := ccsCodec.parse bs
+def composeCcs (v : Nat) : Except PErr Bytes := ccsCodec.compose v
 
 /-- `TlsApplicationDataMessage`: everything -/
 def appDataCodec : Codec Bytes := ⟨fun bs => .ok (bs, bs.length), fun v => .ok v⟩
@@ -280,37 +265,32 @@ def composeExtensions (exts : List Ext) : Except PErr Bytes := do
 
 /-! ### handshake messages -/
 
-/-- `_parse_handshake_header` for a class whose handshake type is `typ`: returns the payload and
-the total length of the message (header + payload). -/
-def parseHsHeader (typ : Nat) (bs : Bytes) : Except PErr (Bytes × Nat) :=
-  if bs.length < Gen.TlsHandshakeMessage_HEADER_SIZE then
-    .error (.notEnough ((Gen.TlsHandshakeMessage_HEADER_SIZE - bs.length : Nat) : Int))
-  else do
-    let (t, n1) ← parseIntEnum Gen.TlsHandshakeType.memberCodes 1 bs
-    if t != typ then .error .invalidType
-    else
-      let (payload, n2) ← parseBytes .network 3 (bs.drop n1)
-      pure (payload, n1 + n2)
+/-- `_parse_handshake_header` / `_compose_header` for a class whose handshake type is `typ`, as a
+frame codec over the payload: the 4-byte size check, the type byte (an `IntEnum` conversion, then
+`InvalidType` when it is another class's type), the 3-byte-prefixed payload. -/
+def hsHeaderCodec (typ : Nat) : Codec Bytes :=
+  minSize Gen.TlsHandshakeMessage_HEADER_SIZE
+    (mapE (seq (guardE (intEnum Gen.TlsHandshakeType.memberCodes 1) (fun t => t == typ) .invalidType)
+        (bytesPrefixed .network 3))
+      (fun x => .ok x.2) (fun p => (typ, p)))
 
-def composeHsHeader (typ : Nat) (payloadLen : Nat) : Except PErr Bytes := do
-  let a ← composeNum .network 1 (typ : Int)
-  let b ← composeNum .network 3 (payloadLen : Int)
-  pure (a ++ b)
+/-- returns the payload and the total length of the message (header + payload) -/
+def parseHsHeader (typ : Nat) (bs : Bytes) : Except PErr (Bytes × Nat) := (hsHeaderCodec typ).parse bs
+
+/-- A handshake message class: the common header, then the class's own parser on the payload. -/
+def hsFramed (typ : Nat) (inner : Codec α) : Codec α := framed (hsHeaderCodec typ) inner
 
 structure Random where
   time : Nat
   bytes : Bytes
 deriving Repr, DecidableEq
 
-/-- `TlsHandshakeHelloRandom._parse`: 4-byte time, 28 random bytes (through a length-less `Vector`) -/
-def parseRandom (bs : Bytes) : Except PErr (Random × Nat) := do
-  let (t, n1) ← parseNum .network 4 bs
-  let (r, n2) ← parseRaw 28 (bs.drop n1)
-  pure (⟨t, r⟩, n1 + n2)
+/-- `TlsHandshakeHelloRandom`: 4-byte time, 28 random bytes (through a length-less `Vector`) -/
+def randomCodec : Codec Random :=
+  mapE (seq (num .network 4) (rawFixed 28)) (fun x => .ok ⟨x.1, x.2⟩) (fun r => (r.time, r.bytes))
 
-def composeRandom (r : Random) : Except PErr Bytes := do
-  let a ← composeNum .network 4 (r.time : Int)
-  if r.bytes.length != 28 then .error (.crash "WrongLength") else pure (a ++ r.bytes)
+def parseRandom (bs : Bytes) : Except PErr (Random × Nat) := randomCodec.parse bs
+def composeRandom (r : Random) : Except PErr Bytes := randomCodec.compose r
 
 def sessionIdParam : VecParam := vp Gen.vec_TlsSessionIdVector
 def cipherSuiteParam : VecParam := vp Gen.vec_TlsCipherSuiteVector
@@ -344,27 +324,26 @@ def parseHelloHeader (pl : Bytes) : Except PErr ((Nat × Random × List Nat) × 
 
 /-- `_parse_extensions`: nothing left in the payload → no extensions -/
 def parseOptExtensions (variants : List (String × Nat)) (p : VecParam) (pl : Bytes) (pos : Nat) :
-    Except PErr (List Ext) :=
-  if pos ≥ pl.length then .ok []
-  else (parseExtensions variants p (pl.drop pos)).map (·.1)
+    Except PErr (List Ext × Nat) :=
+  if pos ≥ pl.length then .ok ([], 0)
+  else parseExtensions variants p (pl.drop pos)
 
-/-- `TlsHandshakeClientHello._parse` -/
-def parseClientHello (bs : Bytes) : Except PErr (ClientHello × Nat) := do
-  let (pl, total) ← parseHsHeader 1 bs
+/-- `TlsHandshakeClientHello._parse` on the payload -/
+def parseClientHelloInner (pl : Bytes) : Except PErr (ClientHello × Nat) := do
   let ((v, r, sid), n1) ← parseHelloHeader pl
   let (cs, n2) ← parseVecCoded cipherSuiteParam Gen.TlsCipherSuite.codes 2 (pl.drop n1)
   let (cm, n3) ← parseVecCoded compressionParam Gen.TlsCompressionMethod.codes 1 (pl.drop (n1 + n2))
-  let exts ← parseOptExtensions Gen.extVariantsClient (vp Gen.vec_TlsExtensionsClient) pl (n1 + n2 + n3)
+  let (exts, n4) ← parseOptExtensions Gen.extVariantsClient (vp Gen.vec_TlsExtensionsClient) pl (n1 + n2 + n3)
   let fb := cs.any (fun c => codeOfSuite c == scsvFallback)
   let rn := cs.any (fun c => codeOfSuite c != scsvFallback && codeOfSuite c == scsvRenegotiation)
   let kept := cs.filter (fun c => codeOfSuite c != scsvFallback && codeOfSuite c != scsvRenegotiation)
   -- the constructor converts the folded list into a TlsCipherSuiteVector: bounds are re-checked
   checkBounds cipherSuiteParam (kept.length * 2)
-  pure (⟨v, r, sid, kept, cm, exts, fb, rn⟩, total)
+  pure (⟨v, r, sid, kept, cm, exts, fb, rn⟩, n1 + n2 + n3 + n4)
 
-/-- `TlsHandshakeClientHello.compose`; the SCSV markers are appended to the vector first (the
-append is refused with `TooMuchData` when the vector is full) -/
-def composeClientHello (h : ClientHello) : Except PErr Bytes := do
+/-- `TlsHandshakeClientHello.compose`, payload part; the SCSV markers are appended to the vector
+first (the append is refused with `TooMuchData` when the vector is full) -/
+def composeClientHelloInner (h : ClientHello) : Except PErr Bytes := do
   let a ← composeVersion h.version
   let b ← composeRandom h.random
   let c ← composeVecNum sessionIdParam 1 h.sessionId
@@ -379,9 +358,11 @@ def composeClientHello (h : ClientHello) : Except PErr Bytes := do
   let d ← composeVecCoded cipherSuiteParam Gen.TlsCipherSuite.codes 2 suites
   let e ← composeVecCoded compressionParam Gen.TlsCompressionMethod.codes 1 h.compressionMethods
   let x ← composeExtensions h.extensions
-  let payload := a ++ b ++ c ++ d ++ e ++ x
-  let hd ← composeHsHeader 1 payload.length
-  pure (hd ++ payload)
+  pure (a ++ b ++ c ++ d ++ e ++ x)
+
+def clientHelloCodec : Codec ClientHello := hsFramed 1 ⟨parseClientHelloInner, composeClientHelloInner⟩
+def parseClientHello (bs : Bytes) : Except PErr (ClientHello × Nat) := clientHelloCodec.parse bs
+def composeClientHello (h : ClientHello) : Except PErr Bytes := clientHelloCodec.compose h
 
 structure ServerHello where
   hsType : Nat                -- 2 = ServerHello, 6 = HelloRetryRequest
@@ -393,67 +374,57 @@ structure ServerHello where
   extensions : List Ext
 deriving Repr, DecidableEq
 
-/-- `TlsHandshakeServerHello._parse` / `TlsHandshakeHelloRetryRequest._parse` -/
-def parseServerHello (typ : Nat) (bs : Bytes) : Except PErr (ServerHello × Nat) := do
-  let (pl, total) ← parseHsHeader typ bs
+/-- `TlsHandshakeServerHello._parse` / `TlsHandshakeHelloRetryRequest._parse` on the payload -/
+def parseServerHelloInner (typ : Nat) (pl : Bytes) : Except PErr (ServerHello × Nat) := do
   let ((v, r, sid), n1) ← parseHelloHeader pl
   let (cs, n2) ← parseCoded Gen.TlsCipherSuite.codes 2 (pl.drop n1)
   let (cm, n3) ← parseCoded Gen.TlsCompressionMethod.codes 1 (pl.drop (n1 + n2))
-  let exts ← parseOptExtensions Gen.extVariantsServer (vp Gen.vec_TlsExtensionsServer) pl (n1 + n2 + n3)
-  pure (⟨typ, v, r, sid, cs, cm, exts⟩, total)
+  let (exts, n4) ← parseOptExtensions Gen.extVariantsServer (vp Gen.vec_TlsExtensionsServer) pl (n1 + n2 + n3)
+  pure (⟨typ, v, r, sid, cs, cm, exts⟩, n1 + n2 + n3 + n4)
 
-def composeServerHello (h : ServerHello) : Except PErr Bytes := do
+def composeServerHelloInner (h : ServerHello) : Except PErr Bytes := do
   let a ← composeVersion h.version
   let b ← composeRandom h.random
   let c ← composeVecNum sessionIdParam 1 h.sessionId
   let d ← composeCoded Gen.TlsCipherSuite.codes 2 h.cipherSuite
   let e ← composeCoded Gen.TlsCompressionMethod.codes 1 h.compressionMethod
   let x ← composeExtensions h.extensions
-  let payload := a ++ b ++ c ++ d ++ e ++ x
-  let hd ← composeHsHeader h.hsType payload.length
-  pure (hd ++ payload)
+  pure (a ++ b ++ c ++ d ++ e ++ x)
+
+def serverHelloCodec (typ : Nat) : Codec ServerHello :=
+  hsFramed typ ⟨parseServerHelloInner typ, composeServerHelloInner⟩
+def parseServerHello (typ : Nat) (bs : Bytes) : Except PErr (ServerHello × Nat) := (serverHelloCodec typ).parse bs
+def composeServerHello (h : ServerHello) : Except PErr Bytes := (serverHelloCodec h.hsType).compose h
 
 def certificatesParam : VecParam := vp Gen.vec_TlsCertificates
 
-/-- `TlsHandshakeCertificate._parse`: a vector of 3-byte-prefixed certificates; whatever follows the
-vector inside the payload is ignored -/
-def parseCertificate (bs : Bytes) : Except PErr (List Bytes × Nat) := do
-  let (pl, total) ← parseHsHeader 11 bs
-  let (certs, _) ← parseVecItems certificatesParam (parseBytes .network 3)
-    (fun c => (composeBytes .network 3 c).map (·.length)) pl
-  pure (certs, total)
+/-- `TlsCertificates`: a vector of 3-byte-prefixed certificates -/
+def certificatesCodec : Codec (List Bytes) where
+  parse := parseVecItems certificatesParam (parseBytes .network 3)
+    (fun c => (composeBytes .network 3 c).map (·.length))
+  compose := composeVecItems certificatesParam (composeBytes .network 3)
 
-def composeCertificate (certs : List Bytes) : Except PErr Bytes := do
-  let body ← composeVecItems certificatesParam (composeBytes .network 3) certs
-  let hd ← composeHsHeader 11 body.length
-  pure (hd ++ body)
+/-- `TlsHandshakeCertificate`; whatever follows the vector inside the payload is ignored -/
+def certificateCodec : Codec (List Bytes) := hsFramed 11 certificatesCodec
+def parseCertificate (bs : Bytes) : Except PErr (List Bytes × Nat) := certificateCodec.parse bs
+def composeCertificate (certs : List Bytes) : Except PErr Bytes := certificateCodec.compose certs
 
-/-- `TlsHandshakeServerHelloDone._parse`: the payload must be empty -/
-def parseServerHelloDone (bs : Bytes) : Except PErr (Unit × Nat) := do
-  let (pl, total) ← parseHsHeader 14 bs
-  if pl.isEmpty then pure ((), total) else .error .invalidValue
+/-- `TlsHandshakeServerHelloDone`: the payload must be empty -/
+def serverHelloDoneCodec : Codec Unit :=
+  hsFramed 14 ⟨fun pl => if pl.isEmpty then .ok ((), 0) else .error .invalidValue, fun _ => .ok []⟩
+def parseServerHelloDone (bs : Bytes) : Except PErr (Unit × Nat) := serverHelloDoneCodec.parse bs
+def composeServerHelloDone (u : Unit) : Except PErr Bytes := serverHelloDoneCodec.compose u
 
-def composeServerHelloDone (_ : Unit) : Except PErr Bytes := composeHsHeader 14 0
+/-- `TlsHandshakeServerKeyExchange`: opaque payload -/
+def serverKeyExchangeCodec : Codec Bytes := hsFramed 12 appDataCodec
+def parseServerKeyExchange (bs : Bytes) : Except PErr (Bytes × Nat) := serverKeyExchangeCodec.parse bs
+def composeServerKeyExchange (p : Bytes) : Except PErr Bytes := serverKeyExchangeCodec.compose p
 
-/-- `TlsHandshakeServerKeyExchange._parse`: opaque payload -/
-def parseServerKeyExchange (bs : Bytes) : Except PErr (Bytes × Nat) := parseHsHeader 12 bs
-
-def composeServerKeyExchange (p : Bytes) : Except PErr Bytes := do
-  let hd ← composeHsHeader 12 p.length
-  pure (hd ++ p)
-
-/-- `TlsHandshakeCertificateStatus._parse` -/
-def parseCertificateStatus (bs : Bytes) : Except PErr ((Nat × Bytes) × Nat) := do
-  let (pl, total) ← parseHsHeader 22 bs
-  let (t, n1) ← parseIntEnum Gen.TlsCertificateStatusType.memberCodes 1 pl
-  let (st, _) ← parseBytes .network 3 (pl.drop n1)
-  pure ((t, st), total)
-
-def composeCertificateStatus (v : Nat × Bytes) : Except PErr Bytes := do
-  let a ← composeNum .network 1 (v.1 : Int)
-  let b ← composeBytes .network 3 v.2
-  let hd ← composeHsHeader 22 (a ++ b).length
-  pure (hd ++ a ++ b)
+/-- `TlsHandshakeCertificateStatus`: status type, 3-byte-prefixed status -/
+def certificateStatusCodec : Codec (Nat × Bytes) :=
+  hsFramed 22 (seq (intEnum Gen.TlsCertificateStatusType.memberCodes 1) (bytesPrefixed .network 3))
+def parseCertificateStatus (bs : Bytes) : Except PErr ((Nat × Bytes) × Nat) := certificateStatusCodec.parse bs
+def composeCertificateStatus (v : Nat × Bytes) : Except PErr Bytes := certificateStatusCodec.compose v
 
 inductive Handshake where
   | clientHello (h : ClientHello)
@@ -473,14 +444,11 @@ def parseHandshakeClass (cls : String) (bs : Bytes) : Except PErr (Handshake × 
   | "TlsHandshakeServerKeyExchange" => (parseServerKeyExchange bs).map fun (p, n) => (.serverKeyExchange p, n)
   | "TlsHandshakeCertificateStatus" => (parseCertificateStatus bs).map fun ((t, s), n) => (.certificateStatus t s, n)
   | "TlsHandshakeServerHelloDone" => (parseServerHelloDone bs).map fun (_, n) => (.serverHelloDone, n)
-  | _ =>
-    -- a class outside the model: its header check is the common one, so a type mismatch is still
-    -- `InvalidType`; only a message of that very type is beyond the model
-    .error unmodelled
+  | _ => .error unmodelled
 
 /-- `TlsHandshakeMessageVariant._parse`: the classes in the regenerated order, first that does
 not raise `InvalidType`. An unmodelled class (certificate request) is skipped when the type byte
-shows it would raise `InvalidType`. -/
+shows it would raise `InvalidType`; a message of that very type is beyond the model. -/
 def parseHandshakeVariantAux (bs : Bytes) : List (String × Nat) → Except PErr (Handshake × Nat)
   | [] => .error .invalidValue
   | (cls, typ) :: more =>
